@@ -102,7 +102,7 @@ def sel {β} (p : β × β) (d : Nat) : β := if d == 0 then p.1 else p.2
 
 inductive Pkt
   | t (c d so n : Nat) (syn ack fin : Bool) (cut : Option (Option Nat))   -- cut: none = whole, some none = inside the link header, some (some k) = k bytes of the IP packet captured
-  | f (c d id foff : Nat) (mf : Bool) (body : Bytes)
+  | f (c d id foff : Nat) (mf : Bool) (body : Bytes) (proto : Nat)
 deriving Inhabited
 
 /-- a packet with the link type of the interface it was written on and the link type fq uses for it -/
@@ -145,14 +145,19 @@ def parsePkt (nconn : Nat) (w : String) : Option Pkt :=
       | [w] => if w.startsWith "x" then (w.drop 1).toString.toNat?.map (fun k => some (some k)) else none
       | _ => none
     some (.t c d so n (fl.contains 'S') (fl.contains 'A') (fl.contains 'F') cut)
-  | ["F", c, d, id, fo, mf, hx] => do
+  | "F" :: c :: d :: id :: fo :: mf :: hx :: rest => do
+    let proto ← match rest with
+      | [] => some 6
+      | [w] => if w.startsWith "p" then (w.drop 1).toString.toNat? else none
+      | _ => none
+    if proto > 255 then none
     let c ← c.toNat?
     let d ← parseDir d
     let id ← id.toNat?
     let fo ← fo.toNat?
     let body ← bytesOfHex hx
     if c ≥ nconn || fo % 8 != 0 || !(mf == "0" || mf == "1") then none
-    some (.f c d id fo (mf == "1") body)
+    some (.f c d id fo (mf == "1") body proto)
   | _ => none
 
 partial def parseConns (ws : List String) (acc : Array CConn) : Option (Array CConn × List String) :=
@@ -200,7 +205,7 @@ def parseCase (op : String) : Option Case :=
         -- every T packet must lie inside the data its sender sent; fragments only of IPv4 connections
         let ok := match p with
           | .t c d so n _ _ _ _ => n == 0 || (so ≥ 1 && so - 1 + n ≤ (sel conns[c]!.data d).length)
-          | .f c _ _ _ _ _ => conns[c]!.ip.1.length == 4
+          | .f c _ _ _ _ _ _ => conns[c]!.ip.1.length == 4
         if !ok then none
         cur := p :: cur
     secs := secs.push (curLinks, cur.reverse)
@@ -224,6 +229,7 @@ structure Done where
   src : Bytes
   dst : Bytes
   id : Nat
+  proto : Nat
   payload : Bytes
   lastLen : Nat        -- total length field of the fragment that completed the datagram
   accepted : Bool      -- `acceptReassembled`: fq's own completion test
@@ -245,8 +251,8 @@ def u16 (n : Nat) : Bytes := [UInt8.ofNat (n / 256 % 256), UInt8.ofNat (n % 256)
 
 /-- the datagram gopacket serialises for fq (flowsdecoder.go:222-231): header of the completing fragment with
     flags/offset cleared, lengths and checksum fixed -/
-def datagram (src dst : Bytes) (id : Nat) (payload : Bytes) : Bytes :=
-  let h0 : Bytes := [0x45, 0] ++ u16 (20 + payload.length) ++ u16 id ++ [0, 0, 64, 6]
+def datagram (src dst : Bytes) (id proto : Nat) (payload : Bytes) : Bytes :=
+  let h0 : Bytes := [0x45, 0] ++ u16 (20 + payload.length) ++ u16 id ++ [0, 0, 64, UInt8.ofNat proto]
   let h1 : Bytes := src ++ dst
   h0 ++ u16 (ipChecksum (h0 ++ [0, 0] ++ h1)) ++ h1 ++ payload
 
@@ -304,7 +310,7 @@ def replay (conns : Array CConn) (pkts : List FPkt) : Replay := Id.run do
         r := { r with evsRef := r.evsRef.push ev }
         if served then r := { r with evsFq := r.evsFq.push ev }
       | none => pure ()    -- `reachesAssembler` = false: nothing of the segment reaches the assembler (either world)
-    | .f c d id foff mf body =>
+    | .f c d id foff mf body proto =>
       let cc := conns[c]!
       let src := sel cc.ip d
       let dst := sel cc.ip (1 - d)
@@ -315,8 +321,10 @@ def replay (conns : Array CConn) (pkts : List FPkt) : Replay := Id.run do
       | none => pure ()
       | some (_, payload, _) =>
         let acc := acceptReassembled true true     -- a fragment, and it completed the datagram
-        r := { r with done := r.done.push ⟨src, dst, id, payload, 20 + body.length, acc && served⟩ }
-        match tcpOf conns src dst payload with
+        -- the datagram is reported whatever it carries; only a TCP segment (protocol 6, complete header) goes on
+        -- to the assembler
+        r := { r with done := r.done.push ⟨src, dst, id, proto, payload, 20 + body.length, acc && served⟩ }
+        match (if proto == 6 then tcpOf conns src dst payload else none) with
         | none => pure ()
         | some ev =>
           r := { r with evsRef := r.evsRef.push ev }
@@ -590,7 +598,7 @@ def predicate (k : Case) (o : ObsSec) (evs : Array Ev) (dones : List Done) (orde
         if od.skipped != r.missing && !w then
           f := f.div s!"connection {ci} {if d == 0 then "A" else "B"}: skipped_bytes {od.skipped} reference counts {r.missing} missing bytes"
   -- ipv4_reassembled
-  let expectR := dones.map fun d => blob (datagram d.src d.dst d.id d.payload)
+  let expectR := dones.map fun d => blob (datagram d.src d.dst d.id d.proto d.payload)
   if o.reasm.toList != expectR then
     f := f.fail s!"ipv4_reassembled has {o.reasm.size} datagrams, reference {expectR.length}" false
   return f
@@ -643,7 +651,7 @@ def stepSection (k : Case) (pkts : List FPkt) (o : ObsSec) (calls : Array Call) 
             dv := dv ++ [s!"interface-assumption (exhausts) connection {i} {if s2c then "s2c" else "c2s"}: {delivered} bytes delivered before the first skip, reference [{rf.base},{rf.stop})"]
           if !post.isEmpty != rf.beyondHole then
             dv := dv ++ [s!"interface-assumption (flushes) connection {i} {if s2c then "s2c" else "c2s"}"]
-  let modelR := (r.done.toList.filter (·.accepted)).map fun d => blob (datagram d.src d.dst d.id d.payload)
+  let modelR := (r.done.toList.filter (·.accepted)).map fun d => blob (datagram d.src d.dst d.id d.proto d.payload)
   if modelR != o.reasm.toList then dv := dv ++ [s!"ipv4_reassembled model has {modelR.length}"]
   return ⟨refF, fqF, dv, dropped, fsmRejected, r.misdecoded⟩
 
